@@ -304,8 +304,85 @@ fn run_seq(a: &Args) -> Report {
     rep
 }
 
+/// Two threads drive one counter with absolute() at the same moment; once both calls returned the snapshot must show
+/// the higher value (a counter's state after absolute(v) is at least v, whoever stored last).
+fn absolute_race(a: &Args, rep: &mut Report) {
+    if cfg!(miri) {
+        return;
+    }
+    let rec = Arc::new(DebuggingRecorder::new());
+    let snap = rec.snapshotter();
+    let rounds = a.budget(40_000, 2_000_000);
+    let round = Arc::new(AtomicU64::new(0));
+    let done = Arc::new(AtomicU64::new(0));
+    let mut hs = Vec::new();
+    for t in 0..2u64 {
+        let (rec, round, done) = (rec.clone(), round.clone(), done.clone());
+        hs.push(std::thread::spawn(move || {
+            let c = rec.register_counter(&Key::from_name("abs"), &MD);
+            let mut k = 1u64;
+            loop {
+                let mut spins = 0u32;
+                loop {
+                    let cur = round.load(Ordering::Acquire);
+                    if cur == u64::MAX {
+                        return;
+                    }
+                    if cur >= k {
+                        break;
+                    }
+                    spins += 1;
+                    if spins % 2048 == 0 {
+                        std::thread::yield_now();
+                    }
+                }
+                c.absolute(if (k + t) % 2 == 0 { 2 * k } else { 2 * k - 1 });
+                done.fetch_add(1, Ordering::AcqRel);
+                k += 1;
+            }
+        }));
+    }
+    let mut bad: Vec<String> = Vec::new();
+    let mut checked = 0u64;
+    for k in 1..=rounds {
+        round.store(k, Ordering::Release);
+        let mut spins = 0u32;
+        while done.load(Ordering::Acquire) < 2 * k {
+            spins += 1;
+            if spins % 2048 == 0 {
+                std::thread::yield_now();
+            }
+        }
+        if k % 4 == 0 || k < 64 {
+            checked += 1;
+            let shown = snap.snapshot().into_vec().into_iter().find_map(|(ck, _, _, v)| match v {
+                DebugValue::Counter(c) if ck.key().name() == "abs" => Some(c),
+                _ => None,
+            });
+            if shown != Some(2 * k) {
+                bad.push(format!("round {}: absolute({}) and absolute({}) both returned, snapshot shows {:?}", k, 2 * k, 2 * k - 1, shown));
+                if bad.len() >= 5 {
+                    break;
+                }
+            }
+        }
+    }
+    round.store(u64::MAX, Ordering::Release);
+    for h in hs {
+        let _ = h.join();
+    }
+    rep.count("absolute_race_rounds_snapshotted", checked);
+    rep.case(mix(checked, 19), true);
+    if !bad.is_empty() {
+        rep.violation("C19:counter-below-completed-absolute", jo! {"what" => "after two concurrent absolute() calls returned, the snapshot shows less than the higher of the two values", "examples" => J::A(bad.into_iter().map(J::s).collect())});
+    }
+}
+
 fn run_concurrent(a: &Args) -> Report {
     let mut rep = Report::new("C19", &a.leg, a.seed);
+    if a.leg == "concurrent" {
+        absolute_race(a, &mut rep);
+    }
     let mut r = Rng::new(a.shard_seed());
     let miri = cfg!(miri);
     let with_hooks = a.leg == "concurrent-hooks";
